@@ -18,7 +18,7 @@ ID = 'C17'
 LEVEL = 'fault_enumeration'
 RULE = ('Case = a file-producing publisher: OutputToFile (default pickle serializer; generated chunked serializers yielding str '
         'chunks / bytes chunks / one str / one bytes), OutputToJSON with a filename pattern ({}-style, %-style, callable), or '
-        'util.atomic_write(filesync in {F,T}); destination initially absent or holding a previous complete record.  For every '
+        'util.atomic_write(filesync in {F,T}), or MfgInspector.save_to_disk (module imported with inert stand-ins for google-auth / *_pb2); destination initially absent or holding a previous complete record.  For every '
         'case the fault-free run is checked (destination == b"".join(chunks), file name == pattern formatted with the record) and '
         'its file-system operations are counted; then EVERY exception-fault position (serializer raises after k chunks, k-th '
         'write raises ENOSPC, close raises, move/rename raises) and EVERY process-kill point (fork; os._exit(137) immediately before '
@@ -190,6 +190,8 @@ def dec_chunks(case):
 
 
 def expected_content(case):
+  if case['kind'] == 'mfg':
+    return chunk_bytes(dec_chunks(case))
   if case['kind'] == 'file':
     if case['serializer'] == 'pickle':
       return pickle.dumps(simple_record(), -1)
@@ -205,6 +207,69 @@ PATTERNS = [
     ('callable', 'cb-DUT1-tn'),
     ('plain.out', 'plain.out'),
 ]
+
+
+_MFG = {}
+
+
+def load_mfg_inspector():
+  """openhtf.output.callbacks.mfg_inspector needs google-auth and generated *_pb2 modules at import time (for its upload
+  path only); they are not installed here, so inert stand-ins are registered first.  save_to_disk() uses none of them."""
+  if 'mod' in _MFG:
+    return _MFG['mod']
+  import types  # pylint: disable=g-import-not-at-top
+
+  class Dummy(object):
+    def __init__(self, *a, **kw):
+      pass
+
+  class PayloadType(object):
+    @staticmethod
+    def values():
+      return [0, 1]
+
+    @staticmethod
+    def Name(v):   # pylint: disable=invalid-name
+      return str(v)
+
+  def stub(name, **attrs):
+    mod = types.ModuleType(name)
+    mod.__dict__.update(attrs)
+    sys.modules[name] = mod
+    parent, _, child = name.rpartition('.')
+    if parent and parent in sys.modules:
+      setattr(sys.modules[parent], child, mod)
+    return mod
+
+  try:
+    import google.auth  # pylint: disable=g-import-not-at-top,unused-import
+  except ImportError:
+    stub('google').__path__ = []
+    stub('google.auth').__path__ = []
+    stub('google.auth.credentials', Credentials=Dummy)
+    stub('google.auth.transport').__path__ = []
+    stub('google.auth.transport.requests', AuthorizedSession=Dummy)
+    stub('google.oauth2').__path__ = []
+    stub('google.oauth2.service_account', Credentials=Dummy)
+  import openhtf.output.proto  # pylint: disable=g-import-not-at-top,unused-import
+  for name, attrs in (('test_runs_pb2', dict(TestRun=Dummy)), ('mfg_event_pb2', dict(MfgEvent=Dummy)),
+                      ('guzzle_pb2', dict(PayloadType=PayloadType, TestRunEnvelope=Dummy, COMPRESSED_TEST_RUN=0, COMPRESSED_MFG_EVENT=1)),
+                      ('test_runs_converter', dict(test_run_from_test_record=None))):
+    try:
+      __import__('openhtf.output.proto.' + name)
+    except Exception:  # pylint: disable=broad-except
+      stub('openhtf.output.proto.' + name, **attrs)
+  from openhtf.output.callbacks import mfg_inspector  # pylint: disable=g-import-not-at-top
+  _MFG['mod'] = mfg_inspector
+  return mfg_inspector
+
+
+class FakeProto(object):
+  def __init__(self, payload):
+    self.payload = payload
+
+  def SerializeToString(self):   # pylint: disable=invalid-name
+    return self.payload
 
 
 def publish(case, destdir, fault_serializer_at=None):
@@ -226,6 +291,18 @@ def publish(case, destdir, fault_serializer_at=None):
         f.write(c)
       if fault_serializer_at is not None and fault_serializer_at >= len(chunks):
         raise Boom('producer fails after all chunks')
+    return
+  if case['kind'] == 'mfg':
+    # MfgInspector.save_to_disk(): the record converted to a proto and written through OutputToFile.open_output_file
+    mi = load_mfg_inspector()
+    payload = chunk_bytes(dec_chunks(case))
+
+    def converter(test_rec):
+      if fault_serializer_at is not None:
+        raise Boom('converter fails')
+      return FakeProto(payload)
+
+    mi.MfgInspector().set_converter(converter).save_to_disk(pattern)(simple_record())
     return
   if case['kind'] == 'json':
     rec = the_record()
@@ -280,6 +357,8 @@ def dest_name(case):
   if exp is None:
     rec = the_record() if case['kind'] == 'json' else simple_record()
     exp = '%s.%s.rec' % (rec.dut_id, rec.station_id)
+  if case['kind'] == 'mfg' and PATTERNS[case['pattern']][0] == 'callable':
+    exp = 'cb-DUT1-tn'
   return exp
 
 
@@ -453,7 +532,7 @@ def check(case, acct=None, known=()):
   return finish(r, case, n_eval, nontrivial_positions)
 
 
-KILL_FILES = ('/shutil.py', '/tempfile.py', '/output/callbacks/__init__.py', '/util/atomic_write.py', '/callbacks/json_factory.py')
+KILL_FILES = ('/shutil.py', '/tempfile.py', '/output/callbacks/__init__.py', '/util/atomic_write.py', '/callbacks/json_factory.py', '/callbacks/mfg_inspector.py')
 
 
 def _line_kill_child(case, destdir, k):
@@ -500,6 +579,7 @@ LINEKILL_CASES = [
     {'kind': 'atomic_write', 'prev': 'OLD COMPLETE RECORD', 'pattern': 0, 'chunks': [['s', 'abc'], ['s', 'def']], 'serializer': None, 'filesync': False},
     {'kind': 'atomic_write', 'prev': 'OLD COMPLETE RECORD', 'pattern': 0, 'chunks': [['s', 'abc'], ['s', 'def']], 'serializer': None, 'filesync': True},
     {'kind': 'atomic_write', 'prev': None, 'pattern': 0, 'chunks': [['s', 'abc']], 'serializer': None, 'filesync': True},
+    {'kind': 'mfg', 'prev': 'OLD COMPLETE RECORD', 'pattern': 0, 'chunks': [['b', 'protobuf bytes']], 'serializer': None},
 ]
 
 
@@ -608,7 +688,7 @@ TEXT = st.text(alphabet=[chr(i) for i in range(32, 256)], min_size=0, max_size=1
 
 @st.composite
 def cases(draw):
-  kind = draw(st.sampled_from(['file', 'file', 'file', 'json', 'atomic_write']))
+  kind = draw(st.sampled_from(['file', 'file', 'file', 'json', 'atomic_write', 'mfg']))
   case = {'kind': kind, 'prev': draw(st.one_of(st.none(), st.sampled_from(['OLD COMPLETE RECORD', 'x']))),
           'pattern': draw(st.integers(0, len(PATTERNS) - 1)), 'chunks': [], 'serializer': None}
   if kind == 'file':
@@ -620,6 +700,8 @@ def cases(draw):
       case['single'] = draw(st.integers(0, 3)) == 0
       if case['single']:
         case['chunks'] = case['chunks'][:1] or [['s', 'only']]
+  elif kind == 'mfg':
+    case['chunks'] = [['b', draw(TEXT)] for _ in range(draw(st.integers(1, 3)))]
   elif kind == 'atomic_write':
     case['chunks'] = [['s', draw(TEXT)] for _ in range(draw(st.integers(0, 5)))]
     case['filesync'] = draw(st.booleans())
